@@ -140,6 +140,28 @@ fn run(case: &Value) -> Obs {
     for c in seen {
         o.tags.push(format!("ctx:{c}"));
     }
+    // The hypothesis of Rio.C03.chunk_invariant_partial (semantic safe cut: prefix stability + restart + held token),
+    // evaluated with the REAL tokenizer at every single cut of a one-html-stage chain, against the syntactic classes.
+    // "sem-unsafe@syn-safe" would mean the syntactic SafeCuts of DESIGN is wider than what the splitting lemma covers.
+    if single.kinds == ["html"] {
+        let mut counts = [0usize; 4];
+        for cuts in &scheds {
+            if cuts.len() == 1 && cuts[0] > 0 && cuts[0] < body.len() {
+                let p = cuts[0];
+                let sem = safe_cut_sem(&[], &body[..p], &body[p..]);
+                let syn = classify_cut(&zones, p).is_none();
+                counts[(if syn { 0 } else { 2 }) + (if sem { 0 } else { 1 })] += 1;
+            }
+        }
+        for (i, name) in ["sem-safe@syn-safe", "sem-unsafe@syn-safe", "sem-safe@syn-unsafe", "sem-unsafe@syn-unsafe"].iter().enumerate() {
+            if counts[i] > 0 {
+                o.tags.push(format!("{name}:cases"));
+            }
+        }
+        if counts[1] > 0 {
+            o.tags.push(format!("sem-unsafe@syn-safe:cuts={}", counts[1].min(9)));
+        }
+    }
     if !failing.is_empty() {
         let mut sig: Option<&'static str> = None;
         let mut first_desc = String::new();
